@@ -1,7 +1,7 @@
 SPECIFICATION MCSpec
 CONSTANTS CntChoices <- CntSmall
           N = 4  EPS = 4  NF = 1  ROOT16 = FALSE  RS = 2  SPC = 2  Names = {"a", "b"}  MaxLen = 1  MaxOpen = 1
-          BugF1 = FALSE BugF2 = FALSE BugF3 = FALSE BugF9 = FALSE BugF18 = FALSE BugF15 = FALSE
+          BugF1 = FALSE BugF2 = FALSE BugF3 = FALSE BugF9 = FALSE BugF18 = FALSE BugF15 = FALSE InfoModel = TRUE
           HintChoices = {0, 5, 11}
 INVARIANTS CrashSafe Durable WellFormed SpaceExact NoInvented FatCopiesEqual HintInRange CountTracks CountExact NoMissedAllocation RecordWritten
 VIEW MCView
